@@ -297,19 +297,6 @@ Definition refines_plain (ops : list op) : Prop :=
   abs (ck_raw (fst (run_ck init_ck ops))) = pl_data (fst (run_plain init_pl ops)).
 
 (* F19: a zero-length write beyond the end of file pads the checksummed file *)
-Definition f19_witness : list op := [OWriteAt 0 [1; 2; 3]; OWriteAt 100 []; OSize].
-
-Lemma refines_plain_refuted_lemma : exists ops, no_tamper ops /\ ~ refines_plain ops.
-Proof.
-  exists f19_witness. split; [reflexivity|].
-  intros [H _]. vm_compute in H. discriminate H.
-Qed.
-
-(* what the two sides answer on the witness: Size = 100 for the checksummed file, 3 for the ordinary file *)
-Example f19_sizes :
-  map r_n (snd (run_ck init_ck f19_witness)) = [3; 0; 100] /\
-  map r_n (snd (run_plain init_pl f19_witness)) = [3; 0; 3].
-Proof. vm_compute. split; reflexivity. Qed.
 
 Lemma truncation_lemma :
   forall r, bad_fragment r ->
